@@ -193,7 +193,7 @@ func genC07(r *kit.Rand, tier kit.Tier) C07Case {
 	}
 
 	kinds := []string{"truncate", "bitflip", "zerofill", "drop-entry", "dup-entry", "swap-entries", "drop-build-id",
-		"port-overfill", "engine-unknown-handler", "engine-empty-handler", "engine-unknown-event-type", "port-unknown-msg-type",
+		"port-overfill", "engine-unknown-handler", "engine-empty-handler", "engine-unknown-event-type", "port-unknown-msg-type", "port-msg-type-other-form",
 		"storage-absurd-units", "storage-unit-beyond-capacity", "component-spec-hash", "component-state-wrong-json-type", "idgen-kind", "entry-rename"}
 	n := 5
 
@@ -376,6 +376,19 @@ func applyCorruption(orig []byte, k Corruption) (damaged []byte, mustFail bool, 
 		}
 
 		entries[i].data = bytes.Replace(entries[i].data, []byte(`"type":"`), []byte(`"type":"example.org/nowhere/`), 1)
+
+		return pack(entries), true, true
+	case "port-msg-type-other-form":
+		// the pointer form of a message type that is registered in value form: a
+		// different Go type, known to nobody
+		i := pickEntity(func(e tarEntry) bool {
+			return isPort(e) && bytes.Contains(e.data, []byte(`"type":"`)) && !bytes.Contains(e.data, []byte(`"type":"*`))
+		})
+		if i < 0 {
+			return nil, false, false
+		}
+
+		entries[i].data = bytes.Replace(entries[i].data, []byte(`"type":"`), []byte(`"type":"*`), 1)
 
 		return pack(entries), true, true
 	case "storage-absurd-units", "storage-unit-beyond-capacity":
@@ -840,7 +853,7 @@ func init() {
 		Assumptions: []string{"bit flips and zero fills may legitimately yield a well-formed archive and are only required not to crash", "a stand-alone page table is registered as a resource in half of the runs (canonical form of empty per-process tables); VM components are not part of the assemblies"},
 		Real:        []string{"simulation archive reader/writer", "simulation.LoadCheckpoint coverage checks", "modeling.Component / messaging.Port / mem.Storage / timing engine + ID generator LoadCheckpoint", "internal/codec"},
 		Stubs:       []string{"checkpointable scripted requesters"},
-		FaultKinds:  []string{"config-mismatch(enumerated)", "archive-truncate", "archive-bitflip", "archive-zerofill", "archive-drop-entry", "archive-dup-entry", "archive-swap-entries", "archive-drop-build-id", "archive-entry-rename", "archive-port-overfill", "archive-engine-unknown-handler", "archive-engine-empty-handler", "archive-engine-unknown-event-type", "archive-port-unknown-msg-type", "archive-storage-absurd-units", "archive-storage-unit-beyond-capacity", "archive-component-spec-hash", "archive-component-state-wrong-json-type", "archive-idgen-kind"},
+		FaultKinds:  []string{"config-mismatch(enumerated)", "archive-truncate", "archive-bitflip", "archive-zerofill", "archive-drop-entry", "archive-dup-entry", "archive-swap-entries", "archive-drop-build-id", "archive-entry-rename", "archive-port-overfill", "archive-engine-unknown-handler", "archive-engine-empty-handler", "archive-engine-unknown-event-type", "archive-port-unknown-msg-type", "archive-port-msg-type-other-form", "archive-storage-absurd-units", "archive-storage-unit-beyond-capacity", "archive-component-spec-hash", "archive-component-state-wrong-json-type", "archive-idgen-kind"},
 		Quick:       kit.Budget{Runs: 300, WallS: 110, CaseS: 300},
 		Thorough:    kit.Budget{Runs: 60000, WallS: 1700, CaseS: 600},
 		Gen:         genC07, Exec: execC07,
